@@ -773,14 +773,18 @@ struct cmb_random_alias *cmb_random_alias_create(const unsigned n,
         }
     }
 
+    /* These keep all their own probability; alias them to themselves, a raw
+     * sample equal to UINT64_MAX still takes the alias branch */
     while (idxl > 0) {
         const unsigned g = large[--idxl];
         alp->uprob[g] = UINT64_MAX;
+        alp->alias[g] = g;
     }
 
     while (idxs > 0) {
         const unsigned l = small[--idxs];
         alp->uprob[l] = UINT64_MAX;
+        alp->alias[l] = l;
     }
 
     cmi_free(large);
